@@ -5,8 +5,9 @@ import Glom.Model.C04Env
   C04 driver: one JSON case in, one JSON verdict out.
 
   case:
-    "classes":  [{"name":n,"bases":[b…] (or "base":b),"shape":Shape|null,"falsy":bool,
-                  "copy":"args"|"init"|"self"|"foreign","sealed":bool,"frozen":bool}…]   user classes
+    "classes":  [{"name":n,"bases":[b…],"shape":Shape|null,"falsy":bool,
+                  "copy":"args"|"init"|"self"|"foreign","sealed":bool,"frozen":bool,"boolraises":bool}…]   user classes
+                (EVERY field named here and below must be present: a missing field is a decode error)
     "exc":      {"cls":n,"init":[AVal…],"kw":bool,"set_args":[AVal…]|null,"raise_class":bool,"cause":bool,"context":bool}
     "spec":     Sp      "ok"|"fault"|{"fault":kind}|"badPath"|"badMatch"|{"tup":[…]}|{"dct":[…]}|{"lst":Sp}
                         |{"frame":Sp,"kind":…}|{"first":Sp,"kind":…}|{"coal":[…],"skip":[names]|null,"dflt":bool}
@@ -17,8 +18,8 @@ import Glom.Model.C04Env
     "settings": {"default":bool,"skip":[names]|null,"debug":bool|null}
     "entry":    glom|spec|glommer   (which entry point; same model)
     "recorder": bool    the whole spec is wrapped in a recording frame
-    "impl":     {"ctor_error":true} | {"class_error":true}
-              | {"orig":{"mro":[…],"args":[…],"rebuild":[…]|null,"falsy":b},
+    "impl":     {"kind":"class_error"} | {"kind":"ctor_error"} | {"kind":"repr_error"}
+              | {"kind":"ran","orig":{"mro":[…],"args":[…],"rebuild":[…]|null,"falsy":b},
                  "origin": null | "unknown" | {"isInj":b,"mro":[…],"args":[…]},
                  "obs": {"returned":"value"|"default"|"none"}
                       | {"raised":{"mro":[…],"args":[…],"instGlom":b,"inj":Rel,"rec":Rel?}}}
@@ -89,25 +90,34 @@ structure UserCls where
   copyVia : CopyKind
   sealed : Bool
   frozen : Bool
+  boolRaises : Bool
 
-def optBool (j : Json) (k : String) : Bool := (j.getObjValAs? Bool k).toOption.getD false
+/-- every field the model reads must be present: a missing or ill-typed field is a decode error -/
+def reqBool (j : Json) (k : String) : Except String Bool :=
+  match j.getObjVal? k with
+  | .ok (.bool b) => .ok b
+  | .ok v => .error s!"field {k}: expected a boolean, got {v.compress}"
+  | .error _ => .error s!"missing field {k} in {j.compress}"
+
+/-- a field that may be `null` (= absent in the Python call) but must be there -/
+def reqNullable {α : Type} (j : Json) (k : String) (f : Json → Except String α) : Except String (Option α) :=
+  match j.getObjVal? k with
+  | .ok .null => .ok none
+  | .ok v => do return some (← f v)
+  | .error _ => .error s!"missing field {k} in {j.compress}"
 
 def userClsOfJson (j : Json) : Except String UserCls := do
-  let sh ← (match j.getObjVal? "shape" with
-    | .ok .null => pure none
-    | .ok s => do return some (← shapeOfJson s)
-    | .error _ => pure none)
-  let bases ← (match j.getObjVal? "bases" with
-    | .ok b => strsOfJson b
-    | .error _ => do return [← j.getObjValAs? String "base"])
-  let ck ← (match j.getObjValAs? String "copy" with
-    | .ok "args" | .error _ => pure CopyKind.args
-    | .ok "init" => pure .init
-    | .ok "self" => pure .self_
-    | .ok "foreign" => pure .foreign
-    | .ok k => throw s!"bad copy kind {k}")
-  return { name := ← j.getObjValAs? String "name", bases := bases, shape := sh, falsy := optBool j "falsy",
-           copyVia := ck, sealed := optBool j "sealed", frozen := optBool j "frozen" }
+  let sh ← reqNullable j "shape" shapeOfJson
+  let bases ← strsOfJson (← j.getObjVal? "bases")
+  let ck ← (match ← j.getObjValAs? String "copy" with
+    | "args" => pure CopyKind.args
+    | "init" => pure .init
+    | "self" => pure .self_
+    | "foreign" => pure .foreign
+    | k => throw s!"bad copy kind {k}")
+  return { name := ← j.getObjValAs? String "name", bases := bases, shape := sh, falsy := ← reqBool j "falsy",
+           copyVia := ck, sealed := ← reqBool j "sealed", frozen := ← reqBool j "frozen",
+           boolRaises := ← reqBool j "boolraises" }
 
 /-- constructor of a class that exists in /repo: the C constructors that rewrite / validate their
     arguments, glom's own classes by their extracted rows, everything else stores all -/
@@ -150,17 +160,14 @@ def classInfo (us : List UserCls) (mros : List (String × List String)) (c : Str
     | some u => u.copyVia
     | none => if m.contains "AttributeError" then .argsState else .args
   let sealed := match userOf c with | some u => u.sealed | none => false
-  (mkClass c (m.drop 1) sh falsy ck sealed (users.any (·.frozen)), sh)
+  (mkClass c (m.drop 1) sh falsy ck sealed (users.any (·.frozen)) (users.any (·.boolRaises)), sh)
 
 def settingsOfJson (j : Json) (dfltId : Nat) : Except String Settings := do
-  let d ← j.getObjValAs? Bool "default"
-  let skip ← (match j.getObjVal? "skip" with
-    | .ok .null => pure none
-    | .ok s => do return some (← strsOfJson s)
-    | .error _ => pure none)
-  let dbg := match j.getObjVal? "debug" with
-    | .ok (.bool b) => some b
-    | _ => none
+  let d ← reqBool j "default"
+  let skip ← reqNullable j "skip" strsOfJson
+  let dbg ← reqNullable j "debug" (fun v => match v with
+    | .bool b => .ok b
+    | v => .error s!"field debug: expected null or a boolean, got {v.compress}")
   return { default := if d then some dfltId else none, skipExc := skip, debug := dbg }
 
 def faultOfKind (k : String) : Except String Sp :=
@@ -189,11 +196,8 @@ partial def spOfJson (j : Json) : Except String Sp :=
     else if let .ok x := j.getObjVal? "nest" then
       return .nest (← spOfJson x) (← settingsOfJson (← j.getObjVal? "settings") 2)
     else if let .ok xs := j.getObjVal? "coal" then
-      let skip ← (match j.getObjVal? "skip" with
-        | .ok .null => pure none
-        | .ok s => do return some (← strsOfJson s)
-        | .error _ => pure none)
-      return .coal (← (← arr xs).mapM spOfJson) skip (optBool j "dflt")
+      let skip ← reqNullable j "skip" strsOfJson
+      return .coal (← (← arr xs).mapM spOfJson) skip (← reqBool j "dflt")
     else throw s!"bad Sp {j.compress}"
 
 structure Rel where
@@ -203,9 +207,9 @@ structure Rel where
   context : Bool
   reach : Bool
 
-def relOfJson (j : Json) : Rel :=
-  { same := optBool j "same", inst := optBool j "inst", cause := optBool j "cause",
-    context := optBool j "context", reach := optBool j "reach" }
+def relOfJson (j : Json) : Except String Rel := do
+  return { same := ← reqBool j "same", inst := ← reqBool j "inst", cause := ← reqBool j "cause",
+           context := ← reqBool j "context", reach := ← reqBool j "reach" }
 
 structure RecOrigin where
   isInj : Bool
@@ -225,17 +229,23 @@ def obsOfJson (j : Json) (origin : Option ExcObj) (rec : Option RecOrigin) : Exc
   else
     let r ← j.getObjVal? "raised"
     let mro ← strsOfJson (← r.getObjVal? "mro")
+    let injRel ← relOfJson (← r.getObjVal? "inj")
+    -- the flags relative to the recording are there exactly when the recording frame saw something
+    let recRel ← (match rec with
+      | some _ => do return some (← relOfJson (← r.getObjVal? "rec"))
+      | none => pure none)
+    let noRel : Rel := ⟨false, false, false, false, false⟩
     let rel : Rel := match origin with
-      | none => ⟨false, false, false, false, false⟩
+      | none => noRel
       | some e =>
-        if e.id == 0 then relOfJson ((r.getObjVal? "inj").toOption.getD .null)
-        else match rec, (r.getObjVal? "rec").toOption with
-          | some ro, some rj =>
-            if !ro.isInj && ro.mro == e.cls.mro then relOfJson rj
-            else ⟨false, mro.contains e.cls.name, false, false, false⟩
-          | _, _ => ⟨false, mro.contains e.cls.name, false, false, false⟩
+        if e.id == 0 then injRel
+        else match rec, recRel with
+          | some ro, some rr =>
+            if !ro.isInj && ro.mro == e.cls.mro then rr
+            else { noRel with inst := mro.contains e.cls.name }
+          | _, _ => { noRel with inst := mro.contains e.cls.name }
     return .raised { mro := mro, args := ← argsOfJson (← r.getObjVal? "args"),
-                     same := rel.same, instOrig := rel.inst, instGlom := ← r.getObjValAs? Bool "instGlom",
+                     same := rel.same, instOrig := rel.inst, instGlom := ← reqBool r "instGlom",
                      causeKept := rel.cause, contextKept := rel.context, reachesOrig := rel.reach }
 
 def obsToJson : Obs → Json
@@ -257,7 +267,7 @@ def branchOf (F : Facts) (s : Settings) (origin : Option ExcObj) (r : Res) : Str
     if !matchesAny e F.outerCatch then "BaseException-only→untouched"
     else if effDebug F s then "debug→original"
     else if isInst e "GlomError" then
-      if e.cls.frozen then "glomerror:frozen→setattr-raises" else
+      if e.cls.frozen then "glomerror:frozen→setattr-raises" else if e.cls.boolRaises then "glomerror:bool-raises" else
       match e.cls.copyVia, pyCopy F e with
       | .self_, _ => "glomerror:__copy__-self"
       | .foreign, _ => "glomerror:__copy__-foreign"
@@ -271,7 +281,8 @@ def branchOf (F : Facts) (s : Settings) (origin : Option ExcObj) (r : Res) : Str
         match wc.ctor e.args with
         | none => "foreign:rebuild-raises→original"
         | some a => if a != e.args then "foreign:rebuild-args-differ→original"
-                    else if wc.frozen then "foreign:frozen→original" else "foreign:wrapped"
+                    else if wc.frozen then "foreign:frozen→original"
+                    else if e.cls.boolRaises then "foreign:bool-raises" else "foreign:wrapped"
 
 def internalId (c : String) : Nat :=
   if c == "PathAccessError" then 1000 else if c == "TypeMatchError" then 1100
@@ -301,23 +312,34 @@ def run (j : Json) : Except String Json := do
   let us ← (← arr (← j.getObjVal? "classes")).mapM userClsOfJson
   let ej ← j.getObjVal? "exc"
   let cname ← ej.getObjValAs? String "cls"
-  let raiseClass := optBool ej "raise_class"
+  let raiseClass ← reqBool ej "raise_class"
   let init0 ← argsOfJson (← ej.getObjVal? "init")
   let init := if raiseClass then [] else init0
-  let kw := !raiseClass && optBool ej "kw"
-  let setArgs ← (match ej.getObjVal? "set_args" with
-    | .ok .null => pure none
-    | .ok a => do return some (← argsOfJson a)
-    | .error _ => pure none)
+  let kw := !raiseClass && (← reqBool ej "kw")
+  let setArgs ← reqNullable ej "set_args" argsOfJson
+  let hasCause ← reqBool ej "cause"
+  let hasContext ← reqBool ej "context"
   let specJ ← j.getObjVal? "spec"
   let spec0 ← spOfJson specJ
-  let recorder := optBool j "recorder"
+  let recorder ← reqBool j "recorder"
   let spec := if recorder then Sp.frame spec0 else spec0
   let s ← settingsOfJson (← j.getObjVal? "settings") 1
   let impl ← j.getObjVal? "impl"
   let F := genFacts
   -- the classes
-  let implClassError := optBool impl "class_error"
+  -- every class named must be known: a user class defined before it is used, or a class of /repo's table
+  let known := fun (n : String) (upto : Nat) =>
+    (us.take upto).any (·.name == n) || (Generated.excTable.any (·.1 == n))
+  for (u, i) in us.zipIdx do
+    for b in u.bases do
+      if !known b i then throw s!"class {u.name}: unknown base {b}"
+  if !known cname us.length then throw s!"unknown exception class {cname}"
+  -- what the run of the implementation was: "class_error" (Python refused the class hierarchy),
+  -- "ctor_error" (the prepared exception could not be constructed), "repr_error" (its repr() raises), "ran"
+  let implKind ← impl.getObjValAs? String "kind"
+  if !["class_error", "ctor_error", "repr_error", "ran"].contains implKind then
+    throw s!"bad impl kind {implKind}"
+  let implClassError := implKind == "class_error"
   let some mros := userMros us
     | (if implClassError then
         return Json.mkObj [("skip", true), ("why", "Python cannot create the class hierarchy (the C3 model agrees)")]
@@ -329,9 +351,9 @@ def run (j : Json) : Except String Json := do
   let (ci, sh) := classInfo us mros cname
   -- the prepared exception object
   let built := sh.construct init kw
-  if optBool impl "repr_error" then
+  if implKind == "repr_error" then
     return Json.mkObj [("skip", true), ("why", "repr() of the prepared exception raises: outside the modelled domain")]
-  if let .ok true := impl.getObjValAs? Bool "ctor_error" then
+  if implKind == "ctor_error" then
     match built with
     | none => return Json.mkObj [("skip", true), ("why", "the prepared exception cannot be constructed (model agrees)")]
     | some a => return Json.mkObj [("agree", false), ("holds", true), ("branch", "ctor-disagreement"),
@@ -340,25 +362,28 @@ def run (j : Json) : Except String Json := do
     | return Json.mkObj [("agree", false), ("holds", true), ("branch", "ctor-disagreement"),
         ("model", Json.mkObj [("ctor", "raises")]), ("why", "model says the constructor raises, implementation built it")]
   let e0 : ExcObj := { id := 0, cls := ci, args := setArgs.getD a0, init := init,
-                       cause := if optBool ej "cause" then some 7 else none,
-                       context := if optBool ej "context" then some 8 else none }
+                       cause := if hasCause then some 7 else none,
+                       context := if hasContext then some 8 else none }
   -- validation of the class model against the real object
   let io ← impl.getObjVal? "orig"
   let implOrigMro ← strsOfJson (← io.getObjVal? "mro")
   let implOrigArgs ← argsOfJson (← io.getObjVal? "args")
-  let implRebuild ← (match io.getObjVal? "rebuild" with
-    | .ok .null => pure none
-    | .ok a => do return some (← argsOfJson a)
-    | .error _ => pure none)
+  let implRebuild ← reqNullable io "rebuild" argsOfJson
   let implFalsy ← io.getObjValAs? Bool "falsy"
   let classAgree := implOrigMro == ci.mro && implOrigArgs == e0.args &&
     implRebuild == ci.ctor e0.args && implFalsy == ci.falsy
   -- what the recording frame saw
   let implOrigin ← impl.getObjVal? "origin"
-  let recO : Option RecOrigin ← (match implOrigin.getObjVal? "mro" with
-    | .ok m => do return some { isInj := optBool implOrigin "isInj", mro := ← strsOfJson m,
-                                args := ← argsOfJson (← implOrigin.getObjVal? "args") }
-    | .error _ => pure none)
+  -- null (the recording frame saw nothing) | "unknown" (no recording frame) | what it saw
+  let recO : Option RecOrigin ← (match implOrigin with
+    | .null => pure none
+    | .str "unknown" => pure none
+    | .obj _ => do return some { isInj := ← reqBool implOrigin "isInj",
+                                 mro := ← strsOfJson (← implOrigin.getObjVal? "mro"),
+                                 args := ← argsOfJson (← implOrigin.getObjVal? "args") }
+    | v => throw s!"bad origin {v.compress}")
+  if recorder != (implOrigin != .str "unknown") then
+    throw "origin: \"unknown\" exactly when there is no recording frame"
   -- an error object glom creates: its args are not modelled, they are taken from the recording
   let internal := fun (c : String) =>
     ({ id := internalId c, cls := (classInfo us mros c).1,
@@ -371,7 +396,7 @@ def run (j : Json) : Except String Json := do
   let outc := eval E spec
   -- origin for the checker: the REFERENCE evaluation (documented facts, independent of what was
   -- extracted) says which exception object must reach the handler
-  let refF := docFacts F.wrapTypeInTry F.attrGuarded
+  let refF := docFacts F.attrGuarded
   let refOutc := eval { E with F := refF } spec
   let originOf := fun (o : Outc) => match o with | .val => none | .exc e => some e
   let modelOrigin := originOf outc
@@ -401,8 +426,13 @@ def run (j : Json) : Except String Json := do
   let feats := (featOf specJ).eraseDups
   let featTag := String.join (feats.map (fun f => s!"+{f}")) ++
     (if raiseClass then "+raise-class" else "") ++ (if us.any (·.bases.length > 1) then "+multi-base" else "")
+  -- the shapes of the two known findings (the harness classifies a failure as known only if, in addition,
+  -- the implementation behaves like this model of the current code and the model itself breaks the property)
+  let knownShape : String :=
+    if ci.frozen || ci.boolRaises then "glomerror_refuses_setattr"
+    else if ci.copyVia == .foreign then "copy_returns_other_class" else ""
   return Json.mkObj [("agree", agree), ("holds", holds), ("model_holds", modelHolds),
-    ("wf", WF F),
+    ("wf", WF F), ("known_shape", knownShape),
     ("model", Json.mkObj [("obs", obsToJson modelObs), ("orig_mro", toJson ci.mro),
       ("orig_args", argsToJson e0.args), ("rebuild", match ci.ctor e0.args with | some a => argsToJson a | none => .null),
       ("falsy", ci.falsy),
